@@ -43,7 +43,7 @@ class Region:
 
 class Layout:
     """three sections with fixed capacities so that addresses are known while the contents are written"""
-    def __init__(self, rng, bits, fill_tail=False):
+    def __init__(self, rng, bits, fill_tail=False, rdata_last=False):
         self.rng, self.bits = rng, bits
         pe = self.pe = PE(bits)
         pe.e_lfanew = rng.choice([0x40, 0x40, 0x80, 0x48, 0xC8])
@@ -53,6 +53,10 @@ class Layout:
         hdr = 0x400
         skew = rng.choice([0, 0, 0, 0, 4, 8]) if rng.random() < 0.3 else 0     # raw data not congruent to the rva mod 8/16
         caps = [("text", 0x200), ("rdata", 0x800), ("data", 0x200)]
+        if rdata_last:
+            # the directory data is the last thing in the file: whatever runs past its section runs past the buffer
+            caps = [caps[0], caps[2], caps[1]]
+        self.order = [c[0] for c in caps]
         va, prd = max(sa, hdr), hdr + skew
         self.regs = {}
         for name, cap in caps:
@@ -67,7 +71,7 @@ class Layout:
     def build(self):
         pe = self.pe
         pe.sections = []
-        for name in ("text", "rdata", "data"):
+        for name in self.order:
             r = self.regs[name]
             pe.sections.append(Section(name=b"." + name.encode(), va=r.va, vs=r.cap, prd=r.prd, rs=r.cap,
                                        chars=0x60000020 if name == "text" else 0x40000040, data=bytes(r.buf)))
@@ -295,14 +299,16 @@ def build_exception(rng, L):
     recs = []
     for b, e in fns:
         r = rng.random()
-        cnt = rng.choice([0, 0, 1, 2, 5])
+        # (CountOfCodes is a u8: 128 and above is where a doubled count no longer fits one)
+        cnt = rng.choice([0, 0, 1, 2, 5]) if rng.random() < 0.8 else rng.choice([127, 128, 129, 200, 255])
         uw = bytes([1 | (rng.randrange(4) << 3), rng.randrange(16), cnt, rng.randrange(256)]) + rand_bytes(rng, 2 * cnt)
         if r < 0.12:
             u = 0                                                      # absent
         elif r < 0.2:
             u = rng.choice([U32, L.size_of_image, L.size_of_image + 4, 1])   # dangling
         elif r < 0.3:
-            pos = L.rdata.tail(uw[:4] if cnt else uw, 1)               # codes cut off by the end of the section
+            keep = rng.choice([0, 0, 1, cnt - 1, cnt // 2, max(0, cnt - 128), rng.randrange(cnt)]) if cnt else 0
+            pos = L.rdata.tail(uw[:4 + 2 * keep] if cnt else uw, 1)    # codes cut off by the end of the section
             u = L.rdata.rva(pos) if pos is not None else 0
         else:
             pos = L.rdata.alloc(uw, rng.choice([4, 4, 1, 2]))
@@ -349,11 +355,12 @@ def cert_blob(rng, size):
 # ---------------------------------------------------------------- cases
 
 def one_image(rng, bits, tier):
-    L = Layout(rng, bits)
+    L = Layout(rng, bits, rdata_last=rng.random() < 0.3)
     pe = L.pe
     M = (1 << bits) - 1
-    if rng.random() < 0.15:
-        pe.image_base = rng.choice([0x10000, 0xFFFF0000, 0x7FFE0000]) if bits == 32 else rng.choice([0x10000, 0xFFFFFFFFFFFF0000, 0x7FF000000000])
+    if rng.random() < 0.22:
+        # (the last choice: ImageBase + SizeOfImage is exactly 2^bits, the image ends with the address space)
+        pe.image_base = rng.choice([0x10000, 0xFFFF0000, 0x7FFE0000, M + 1 - L.size_of_image]) if bits == 32 else rng.choice([0x10000, 0xFFFFFFFFFFFF0000, 0x7FF000000000, M + 1 - L.size_of_image])
     base = pe.image_base
     vbase = None
     if rng.random() < 0.2:
@@ -406,7 +413,7 @@ def one_image(rng, bits, tier):
         pe.dirs[DIR_SECURITY] = (decl_off, decl_size)
         data = L.build()
         data = data + bytes(off - len(data)) + blob
-    view = load_view(pe, data[:L.data.prd + L.data.cap])
+    view = load_view(pe, data[:max(r_.prd + r_.cap for r_ in L.regs.values())])
     return L, data, view, fns, vbase
 
 
@@ -436,6 +443,31 @@ def gen_dirs(rng, tier):
                 kw = "wf" if mode == "file" else "wv"
                 case += ops_for(kw, pcs[:6])
             cases.append(case)
+    return cases
+
+
+def gen_dirs_cv_bounds(rng, tier):
+    """CodeView records whose SizeOfData moves byte by byte across the fixed parts (4 signature, 16 NB10,
+    24 RSDS) and across the terminator of the path; one debug entry per image, file and view"""
+    cases = []
+    combos = [(bits, sig) for bits in (32, 64) for sig in ("NB10", "RSDS", "RSDT")]
+    for bits, sig in combos:
+        sizes = list(range(0, 34)) if tier != "quick" else sorted(set(rng.sample(range(0, 34), 10) + [15, 16, 17, 23, 24, 25]))
+        for size in sizes:
+            L = Layout(rng, bits)
+            path = b"a.pdb"
+            blob = (cv_nb10(rng, path) if sig == "NB10" else cv_rsds(rng, path))
+            blob = sig.encode() + blob[4:]
+            full = blob + b"ZZZZZZZZ"
+            pos = L.rdata.alloc(full, 4, 0)
+            ent = struct.pack("<IIHHIIII", 0, 0x5F000000, 0, 0, 2, size, L.rdata.rva(pos), L.rdata.ptr(pos))
+            tpos = L.rdata.alloc(ent, 4, 0)
+            L.pe.dirs[DIR_DEBUG] = (L.rdata.rva(tpos), 28)
+            data = L.build()
+            view = load_view(L.pe, data)
+            for k, buf in (("f%d" % bits, data), ("v%d" % bits, view)):
+                if buf is not None:
+                    cases.append([img_line(rng, buf, rng.choice([0, 8])), "debug %s dump" % k])
     return cases
 
 
